@@ -7,13 +7,12 @@ Instruction fields themselves are decided by C02-C05; here: the plumbing of xdis
  R4 get_code_object probes the same attributes, in the same order, as dis._get_code_object of every host
  R5 make_std_api / get_opcode_module turn a float version into the right tuple for 1.0 ... 3.9"""
 import ast
-import symtable
 
 from ..disasm_sum import CODE, MARK, ByteHook
 from ..fold import ClassRef, FoldError, FuncRef, Instance, ModuleNS, PyExc
 from ..report import AnalysisError
 from ..repo import get_repo
-from ..sve import (Lin, Op, Spec, Sym, flatten_effects, show)
+from ..sve import (Lin, Op, Ret, Spec, Sym, flatten_effects, leaves, show)
 from ..tables import ref_json, tables
 
 STD_NAMES = ["hasconst", "hasname", "opmap", "opname", "EXTENDED_ARG", "HAVE_ARGUMENT", "Bytecode", "Instruction", "findlabels", "findlinestarts",
@@ -24,8 +23,8 @@ TABLE_FIELDS = ["hasconst", "hasname", "opmap", "opname", "EXTENDED_ARG", "HAVE_
 
 def run(rep, tier):
     rep.explanation = ("def-use chains through xdis.std / Bytecode / get_instructions_bytes / the decoder by specialisation with symbolic first_line and "
-                       "line offset; scope resolution (symtable) of the nested Bytecode class; AST comparison of the module-level bindings and of the "
-                       "object-coercion probe list with dis._get_code_object; constant folding of the float-version conversions")
+                       "line offset; the folded xdis.std module (the default API object, API objects for other versions, the classes they carry) specialised on symbolic "
+                       "arguments down to the decoder call; probe order of get_code_object observed on the specialised function; constant folding of the float-version conversions")
     rep.rule("R1", "the first_line argument shifts every reported starts_line: first_line -> (first_line - co_firstlineno) -> line_offset parameter of "
                    "get_instructions_bytes -> line_offset of the decoder -> starts_line = linestarts[offset] + line_offset, with no link dropping it")
     rep.rule("R2", "inside _StdApi.__init__ the nested Bytecode falls back to the API instance's own opcode table (a variable of that __init__), not to the module-level default API")
@@ -121,6 +120,16 @@ def run(rep, tier):
     rep.analysed(gi.qualname)
     from ..sve import eval_term
 
+    def cache_filter(ys):
+        """[is a CACHE entry yielded?, is another instruction yielded?] for the single yield site ys[0], by evaluating its guards (however they are written)"""
+        res = []
+        for opn in ("CACHE", "LOAD_CONST"):
+            try:
+                res.append(all(bool(eval_term(g, {"attr(%s, 'opname')" % show(ys[0].args[0]): opn})) for g in ys[0].guards if not (isinstance(g, Op) and g.op == "in-loop")))
+            except Exception as ex:
+                res.append("not evaluable: %s" % ex)
+        return res
+
     def std_run(sc):
         seen_ = {}
 
@@ -149,117 +158,147 @@ def run(rep, tier):
     rep.ob("R1", "xdis.std._StdApi.get_instructions", "forwards-first_line", lo_val == 234, expected="the decoder's line_offset is first_line - co.co_firstlineno (1234, 1000 -> 234)",
            derived={"line_offset": show(lo)[:80], "evaluated": lo_val},
            msg="xdis.std.get_instructions(x, first_line) does not shift the reported lines by first_line - co_firstlineno")
-    # ---------------------------------------------------------------- R2
-    sm = repo.module("xdis.std")
-    m, init = repo.function("xdis.std._StdApi.__init__")
-    nested = [n for n in ast.walk(init) if isinstance(n, ast.ClassDef) and n.name == "Bytecode"]
-    if not nested:
-        # the class handed out as self.Bytecode is not created per API object: one class object (and whatever table it reads) serves every API
-        bound = [ast.unparse(n.value) for n in ast.walk(init) if isinstance(n, ast.Assign) and any(ast.unparse(t) == "self.Bytecode" for t in n.targets)]
-        if not bound:
-            raise AnalysisError("anchor vanished: self.Bytecode is not assigned in _StdApi.__init__")
-        rep.ob("R2", "xdis.std._StdApi.__init__", "per-instance-Bytecode-class", False, expected="a Bytecode class created inside __init__ that closes over this API's opcode table",
-               derived="self.Bytecode = %s (not defined in __init__)" % bound[0],
-               msg="every API object shares the class %s: the opcode table it falls back to is common to all of them, so make_std_api(v) objects answer with one another's tables" % bound[0])
-        nested = None
-    ninit_src = nested[0].body if nested else []
-    ninit = [n for n in ninit_src if isinstance(n, ast.FunctionDef) and n.name == "__init__"]
-    fallback = None
-    if ninit:
-        for n in ast.walk(ninit[0]):
-            if isinstance(n, ast.If) and "opc is None" in ast.unparse(n.test):
-                for s_ in n.body:
-                    if isinstance(s_, ast.Assign) and any(isinstance(t, ast.Name) and t.id == "opc" for t in s_.targets):
-                        fallback = s_.value
-    if fallback is None and nested:
-        # no fallback: opc must be passed explicitly by every caller in the module -- treated as vanished
-        raise AnalysisError("anchor vanished: `if opc is None: opc = ...` in the nested Bytecode.__init__")
-    # scope of the names in the fallback expression
-    st = symtable.symtable(sm.src, "xdis/std.py", "exec")
-
-    def find(tab, path):
-        if not path:
-            return tab
-        for c in tab.get_children():
-            if c.get_name() == path[0]:
-                r = find(c, path[1:])
-                if r is not None:
-                    return r
-        return None
-    tab = find(st, ["_StdApi", "__init__", "Bytecode", "__init__"]) if nested else None
-    names = [n.id for n in ast.walk(fallback) if isinstance(n, ast.Name)] if fallback is not None else []
-    kinds = {}
-    for nm in names:
+    # ---------------------------------------------------------------- R2 each API object decodes with its own version's table
+    msa_ = std_mod.ns.get("make_std_api")
+    if not isinstance(msa_, FuncRef):
+        raise AnalysisError("anchor vanished: xdis.std.make_std_api")
+    for v_ in ((2, 7), (3, 8), (3, 11), (3, 13)):
         try:
-            sy = tab.lookup(nm)
-            kinds[nm] = "free" if sy.is_free() else ("global" if sy.is_global() else ("local" if sy.is_local() else "?"))
-        except KeyError:
-            kinds[nm] = "?"
-    ok = bool(names) and all(k in ("free", "local") for k in kinds.values())
-    if nested:
-        rep.ob("R2", "xdis.std._StdApi.__init__.Bytecode.__init__", "fallback-opc-is-the-instance-table", ok, expected="a variable of the enclosing _StdApi.__init__ (this API's table)",
-           derived={"expr": ast.unparse(fallback), "name scopes": kinds}, where=repo.where(sm, fallback),
-           msg="the nested Bytecode falls back to %s, a module-level object: make_std_api(v).Bytecode/get_instructions use the *default* API's opcode table" % ast.unparse(fallback))
-    if ok:
-        # and that variable is the table chosen for this instance
-        assigns = [n for n in ast.walk(init) if isinstance(n, ast.Assign) and any(isinstance(t, ast.Name) and t.id in names for t in n.targets)]
-        src = " ".join(ast.unparse(a.value) for a in assigns)
-        rep.ob("R2", "xdis.std._StdApi.__init__", "instance-table-from-get_opcode_module", "get_opcode_module(python_version, variant)" in src,
-               expected="get_opcode_module(python_version, variant)", derived=src[:120])
-    # ---------------------------------------------------------------- R3
-    top = {}
-    for s_ in sm.tree.body:
-        if isinstance(s_, ast.Assign) and len(s_.targets) == 1 and isinstance(s_.targets[0], ast.Name):
-            top[s_.targets[0].id] = s_.value
-    api_var = None
-    for k, v in top.items():
-        if isinstance(v, ast.Call) and ast.unparse(v.func) == "make_std_api" and not v.args and not v.keywords:
-            api_var = k
-    rep.ob("R3", "xdis.std", "default-api", api_var is not None, expected="<name> = make_std_api()", derived=api_var)
+            api_v = F.apply(msa_, [v_], {})
+        except (PyExc, FoldError) as ex:
+            rep.ob("R2", "xdis.std.make_std_api", "api-object@%d.%d" % v_, False, expected="an API object", derived="raises %s" % ex)
+            continue
+        tbl_v = api_v.attrs.get("opc") if isinstance(api_v, Instance) else None
+        ok_t = isinstance(tbl_v, ModuleNS) and tuple(tbl_v.ns.get("version_tuple", ())[:2]) == v_
+        rep.ob("R2", "xdis.std._StdApi.__init__", "api-table@%d.%d" % v_, ok_t, expected="the opcode table of %d.%d" % v_, derived=getattr(tbl_v, "name", show(tbl_v)),
+               msg="make_std_api(%r).opc is not that version's opcode table" % (v_,))
+        if not ok_t:
+            continue
+        for entry in ("get_instructions", "Bytecode-iteration"):
+            seen_ = {}
+
+            def hook_v(spec, name, fv, args, kw, node, seen_=seen_):
+                if name.endswith("get_code_object"):
+                    return Sym("co", "obj!")
+                if name.endswith("findlinestarts"):
+                    return []
+                if name.endswith("get_instructions_bytes"):
+                    seen_["args"] = list(args)
+                    seen_["kw"] = dict(kw)
+                    return Sym("gen", "gen", {})
+                return NotImplemented
+            sp_v = Spec(F, hooks=[hook_v], opaque_funcs={"parse_exception_table"})
+            sp_v.gen_elem_hook = lambda spec, gen, tag: Sym("inst", "obj!")
+            try:
+                if entry == "get_instructions":
+                    sp_v.run(A_.lookup("get_instructions"), [api_v, Sym("x")], {})
+                else:
+                    Bc = api_v.attrs.get("Bytecode")
+                    inst_b = sp_v.call(Bc, [Sym("x")], {}, None, {})
+                    it_f = Bc.lookup("__iter__") if isinstance(Bc, ClassRef) else None
+                    sp_v.run(it_f, [inst_b])
+            except Exception as ex:
+                seen_["err"] = "not evaluable: %s" % ex
+            a_ = seen_.get("args", [])
+            used = seen_.get("kw", {}).get("opc", a_[1] if len(a_) > 1 else None)
+            rep.ob("R2", "xdis.std._StdApi.%s" % ("get_instructions" if entry == "get_instructions" else "__init__.Bytecode.__iter__"), "%s-decodes-with-api-table@%d.%d" % (entry, v_[0], v_[1]),
+                   used is tbl_v, expected=tbl_v.name, derived=seen_.get("err") or getattr(used, "name", show(used)),
+                   msg="make_std_api(%r): %s hands the decoder %s instead of this API's own table: instructions are decoded with another version's opcodes" % (
+                       v_, entry, getattr(used, "name", show(used))))
+    # ---------------------------------------------------------------- R3 decided on the folded module: what the names are bound to after `import xdis.std`
+    from ..fold import BoundMethod
+    ns_std = std_mod.ns
+    rep.ob("R3", "xdis.std", "default-api", isinstance(api_obj, Instance) and api_obj.cls is A_, expected="a module-level API object made by make_std_api()", derived=show(api_obj)[:60])
+    tbl0 = api_obj.attrs.get("opc")
+
+    def member(obj, nm):
+        if nm in obj.attrs:
+            return obj.attrs[nm]
+        m_ = obj.cls.lookup(nm)
+        return BoundMethod(m_, obj) if isinstance(m_, FuncRef) else m_
+
+    def same_binding(a_, b_):
+        if isinstance(a_, BoundMethod) and isinstance(b_, BoundMethod):
+            return a_.func is b_.func and a_.self is b_.self
+        return a_ is b_ or (not isinstance(a_, (BoundMethod, FuncRef, ClassRef, Instance)) and type(a_) is type(b_) and a_ == b_)
     for nm in STD_NAMES:
-        v = top.get(nm)
-        ok = v is not None and ast.unparse(v) == "%s.%s" % (api_var, nm)
-        rep.ob("R3", "xdis.std", "module-level:%s" % nm, ok, expected="%s.%s" % (api_var, nm), derived=ast.unparse(v) if v is not None else None,
-               msg="xdis.std.%s is not the default API's %s" % (nm, nm))
+        v = ns_std.get(nm)
+        w = member(api_obj, nm)
+        rep.ob("R3", "xdis.std", "module-level:%s" % nm, v is not None and w is not None and same_binding(v, w), expected="the default API object's %s" % nm,
+               derived=show(v)[:60] if v is not None else None, msg="xdis.std.%s is not the default API's %s" % (nm, nm))
     # every public name of the host's dis module exists in xdis.std (any binding; the ones above are checked for *what* they are bound to)
     disall = ref_json("dis_all.json")["hosts"]
-    bound = set(top)
-    for s_ in sm.tree.body:
-        if isinstance(s_, (ast.FunctionDef, ast.ClassDef)):
-            bound.add(s_.name)
-        elif isinstance(s_, (ast.Import, ast.ImportFrom)):
-            bound.update((a.asname or a.name).split(".")[0] for a in s_.names)
     for hk, names in sorted(disall.items(), key=lambda kv: tuple(int(x) for x in kv[0].split("."))):
         for nm in names:
-            rep.ob("R3", "xdis.std", "dis.__all__:%s@host%s" % (nm, hk), nm in bound, expected="xdis.std.%s exists (dis %s has it)" % (nm, hk), derived="bound" if nm in bound else "missing",
+            rep.ob("R3", "xdis.std", "dis.__all__:%s@host%s" % (nm, hk), nm in ns_std, expected="xdis.std.%s exists (dis %s has it)" % (nm, hk), derived="bound" if nm in ns_std else "missing",
                    msg="`from xdis.std import %s` fails although the dis module of Python %s exports %s" % (nm, hk, nm))
-    selfassign = {}
-    for n in ast.walk(init):
-        if isinstance(n, ast.Assign):
-            for t in n.targets:
-                if isinstance(t, ast.Attribute) and isinstance(t.value, ast.Name) and t.value.id == "self":
-                    selfassign[t.attr] = ast.unparse(n.value)
-    for nm in TABLE_FIELDS:
-        rep.ob("R3", "xdis.std._StdApi.__init__", "member:%s" % nm, selfassign.get(nm) == "opc.%s" % nm, expected="opc.%s" % nm, derived=selfassign.get(nm))
-    for nm, want in (("findlabels", "self.opc.findlabels(code, self.opc)"), ("findlinestarts", "self.opc.findlinestarts(code)")):
-        m_, fn_ = repo.function("xdis.std._StdApi.%s" % nm)
-        ret = [ast.unparse(n.value) for n in ast.walk(fn_) if isinstance(n, ast.Return) and n.value is not None]
-        rep.ob("R3", "xdis.std._StdApi.%s" % nm, "delegates-to-table", ret == [want], expected=want, derived=ret)
+    # the API object's table fields are its own opcode table's (checked on the default API and on one for another version)
+    for label, obj in (("default", api_obj), ("2.7", F.apply(msa_, [(2, 7)], {}))):
+        tb = obj.attrs.get("opc") if isinstance(obj, Instance) else None
+        for nm in TABLE_FIELDS:
+            got_ = obj.attrs.get(nm) if isinstance(obj, Instance) else None
+            want_ = tb.ns.get(nm) if isinstance(tb, ModuleNS) else None
+            rep.ob("R3", "xdis.std._StdApi.__init__", "member:%s@%s" % (nm, label), want_ is not None and (got_ is want_ or got_ == want_), expected="opc.%s" % nm,
+                   derived=show(got_)[:60], msg="make_std_api(...).%s is not the %s of that API's opcode table" % (nm, nm))
+    # findlabels / findlinestarts delegate to the table's bound finders with the caller's code (and the table itself for findlabels)
+    for nm in ("findlabels", "findlinestarts"):
+        called = []
+
+        def hook_f(spec, name, fv, args, kw, node, nm=nm, called=called):
+            if name.split(".")[-1] == nm or name.endswith("." + nm):
+                called.append((name, [show(a_)[:40] for a_ in args]))
+                return Sym("result", "list")
+            return NotImplemented
+        meth = A_.lookup(nm)
+        sp_f = Spec(F, hooks=[hook_f])
+        code_s = Sym("code", "obj!")
+        out_f = sp_f.run(meth, [api_obj, code_s])
+        rets_f = [show(l.value) for g, l in leaves(out_f) if isinstance(l, Ret)]
+        finder = tbl0.ns.get(nm) if isinstance(tbl0, ModuleNS) else None
+        okf = len(called) == 1 and rets_f == ["result"] and called[0][1][:1] == ["code"] and (nm != "findlabels" or called[0][1][1:2] == [show(tbl0)[:40]]) \
+            and isinstance(finder, FuncRef) and called[0][0] == finder.qualname
+        rep.ob("R3", "xdis.std._StdApi.%s" % nm, "delegates-to-table", okf, expected="the table's own %s, given the caller's code%s" % (nm, " and the table" if nm == "findlabels" else ""),
+               derived=[called[:2], rets_f[:2]])
     # ---------------------------------------------------------------- R4
     ref = ref_json("codetype.json")["hosts"]
     m_, fn_ = repo.function("xdis.cross_dis.get_code_object")
     rep.analysed("xdis.cross_dis.get_code_object")
-    probes = []
-    for n in ast.walk(fn_):
-        if isinstance(n, ast.Call) and isinstance(n.func, ast.Name) and n.func.id == "hasattr" and len(n.args) == 2 and isinstance(n.args[1], ast.Constant):
-            probes.append(("hasattr", n.args[1].value, n.lineno, n.col_offset))
-        if isinstance(n, ast.Call) and isinstance(n.func, ast.Name) and n.func.id == "isinstance" and len(n.args) == 2 and isinstance(n.args[1], ast.Name):
-            probes.append(("isinstance", n.args[1].id, n.lineno, n.col_offset))
-    probes.sort(key=lambda t: (t[2], t[3]))
-    mine = [[a, b] for a, b, c, d in probes if b != "func_code"]
+    # the order in which get_code_object consults its argument, observed on the specialised function (an if-chain, a loop over a table of names and a
+    # dispatch dict all give the same sequence): every probe answers "no", so the whole sequence is visited
+    gco = F.modules["xdis.cross_dis"].ns.get("get_code_object")
+    if not isinstance(gco, FuncRef):
+        raise AnalysisError("anchor vanished: xdis.cross_dis.get_code_object")
+    xo = Sym("x", "obj")
+
+    def probe_run(yes):
+        seq = []
+
+        def hookp(spec, name, fv, args, kw, node):
+            if name == "hasattr" and len(args) == 2 and isinstance(args[1], str) and (args[0] is xo or (isinstance(args[0], Op) and args[0].op == "attr")):
+                seq.append(["hasattr", args[1]])
+                return args[1] in yes and args[0] is xo or (args[1] == "co_code" and "co_code" in yes)
+            if name == "isinstance" and len(args) == 2 and (args[0] is xo or isinstance(args[0], Op)):
+                t_ = args[1]
+                seq.append(["isinstance", getattr(t_, "__name__", show(t_))])
+                return False
+            return NotImplemented
+        spp = Spec(F, hooks=[hookp])
+        outp = spp.run(gco, [xo])
+        rets_ = [l.value for g, l in leaves(outp) if isinstance(l, Ret)]
+        return seq, rets_
+    seq0, _ = probe_run(set())
+    mine = [p_ for p_ in seq0 if p_[1] != "func_code"]
     for host, rec in sorted(ref.items()):
         rep.ob("R4", "xdis.cross_dis.get_code_object", "probes@host%s" % host, mine == rec["get_code_object_probes"], expected=rec["get_code_object_probes"], derived=mine,
                msg="objects accepted by dis on host %s are coerced differently" % host)
+    # a probe that answers "yes" leads to that attribute of the object (and the result is what carries co_code)
+    for kind_, nm_ in mine:
+        if kind_ != "hasattr" or nm_ in ("co_code", "__func__"):
+            continue
+        _, rets_ = probe_run({nm_, "co_code"})
+        got_ = [show(r_) for r_ in rets_]
+        rep.ob("R4", "xdis.cross_dis.get_code_object", "probe:%s-reads-its-attribute" % nm_, got_ == ["attr(x, '%s')" % nm_], expected="x.%s" % nm_, derived=got_,
+               msg="an object with %s is not coerced to its %s" % (nm_, nm_))
     # ---------------------------------------------------------------- R5
     F.load("xdis.std")
     msa = F.modules["xdis.std"].ns.get("make_std_api")
@@ -277,22 +316,23 @@ def run(rep, tier):
             got = "raises %s" % e
         rep.ob("R5", "xdis.op_imports.get_opcode_module", "float=%s" % v, got == want, expected=list(want), derived=got,
                msg="get_opcode_module(%r) selects the table of %r" % (v, got))
-    # make_std_api's own float folding, as written
-    m_, fn_ = repo.function("xdis.std.make_std_api")
-    conv = [n for n in ast.walk(fn_) if isinstance(n, ast.If) and "float" in ast.unparse(n.test)]
-    if conv:
-        from ..fold import Folder
-        for v in floats:
-            env = {"python_version": v, "__closure__": None}
-            try:
-                F.exec_block(conv[0].body, F.modules["xdis.std"].ns, F.modules["xdis.std"], env)
-                got = env.get("python_version")
-            except (PyExc, FoldError) as e:
-                got = "raises %s" % e
-            want = (int(str(v).split(".")[0]), int(str(v).split(".")[1]))
-            rep.ob("R5", "xdis.std.make_std_api", "float=%s" % v, tuple(got) == want if isinstance(got, (tuple, list)) else False, expected=list(want), derived=got)
-    else:
-        rep.ob("R5", "xdis.std.make_std_api", "float-branch", False, expected="isinstance(python_version, float) conversion", derived="not found")
+    # make_std_api's own float conversion: the version it constructs the API object with
+    for v in floats:
+        got_v = []
+
+        def hook5(spec, name, fv, args, kw, node, got_v=got_v):
+            if name.endswith("._StdApi"):
+                got_v.append(kw.get("python_version", args[0] if args else None))
+                return Sym("api", "obj!")
+            return NotImplemented
+        sp5 = Spec(F, hooks=[hook5])
+        try:
+            sp5.run(msa, [v], {})
+        except Exception as ex:
+            got_v.append("not evaluable: %s" % ex)
+        want = (int(str(v).split(".")[0]), int(str(v).split(".")[1]))
+        g0 = got_v[0] if got_v else None
+        rep.ob("R5", "xdis.std.make_std_api", "float=%s" % v, isinstance(g0, (tuple, list)) and tuple(g0) == want, expected=list(want), derived=show(g0) if not isinstance(g0, (tuple, list)) else list(g0))
     # ---------------------------------------------------------------- R7 inline CACHE entries are hidden by default, as in dis (show_caches=False)
     for sc, want in ((False, ["NotEq(attr(%s, 'opname'), 'CACHE')"]), (True, [])):
         sp, out_, seen_, kwargs = std_run(sc)
@@ -301,25 +341,48 @@ def run(rep, tier):
         got = None
         okc = False
         if len(ys) == 1 and len(srcs) >= 1:
-            elem = show(ys[0].args[0])
-            got = [show(g) for g in ys[0].guards if not (isinstance(g, Op) and g.op == "in-loop")]
-            okc = got == [w % elem for w in want] and any(show(s_.args[3].cond) == "iter-more(gen)" for s_ in srcs) and "args" in seen_
+            got = cache_filter(ys)
+            okc = got == [bool(sc), True] and show(ys[0].args[0]) == "inst" and any(show(s_.args[3].cond) == "iter-more(gen)" for s_ in srcs) and "args" in seen_
         elif not ys:
             got = "returns the underlying iterator unfiltered"
         if sc is False or kwargs:
             rep.ob("R7", gi.qualname, "cache-entries:show_caches=%s" % sc, okc, expected="yields every instruction the decoder produces%s" % (" except CACHE" if not sc else ""),
                    derived=got, msg="dis.get_instructions(x) leaves out the inline CACHE entries of 3.11+ code unless show_caches=True; xdis.std.get_instructions %s" % (
                        "yields them" if not sc else "does not yield them on request"))
-    m_std, init_std = repo.function("xdis.std._StdApi.__init__")
-    ncls = [n for n in ast.walk(init_std) if isinstance(n, ast.ClassDef) and n.name == "Bytecode"]
-    it_ = [n for c in ncls for n in c.body if isinstance(n, ast.FunctionDef) and n.name == "__iter__"]
-    filt = False
-    for fn_ in it_:
-        for c in ast.walk(fn_):
-            if isinstance(c, ast.Compare) and any(isinstance(x, ast.Constant) and x.value == "CACHE" for x in ast.walk(c)) and any(isinstance(x, ast.Attribute) and x.attr == "opname" for x in ast.walk(c)):
-                filt = True
-    rep.ob("R7", "xdis.std._StdApi.__init__.Bytecode.__iter__", "cache-entries-hidden-by-default", filt, expected="iteration skips CACHE unless show_caches", derived="filtered" if filt else "not filtered",
-           msg="iterating dis.Bytecode(x) leaves out the inline CACHE entries of 3.11+ code unless show_caches=True")
+    # iteration over xdis.std.Bytecode(x[, show_caches=...]) and the dup_lines value it asks the line-start finder for: the class of the default API object is
+    # instantiated on a symbolic x and its __iter__ specialised
+    Bc0 = api_obj.attrs.get("Bytecode")
+    if not isinstance(Bc0, ClassRef):
+        raise AnalysisError("anchor vanished: the default API object's Bytecode class")
+    dl_seen = []
+    for sc, want in ((False, ["NotEq(attr(%s, 'opname'), 'CACHE')"]), (True, [])):
+        def hook_b(spec, name, fv, args, kw, node):
+            if name.endswith("get_code_object"):
+                return Sym("co", "obj!")
+            if name.endswith("findlinestarts"):
+                dl_seen.append(kw.get("dup_lines", args[1] if len(args) > 1 else "<not passed: the finder's default>"))
+                return []
+            if name.endswith("get_instructions_bytes"):
+                return Sym("gen", "gen", {})
+            return NotImplemented
+        sp_b = Spec(F, hooks=[hook_b], opaque_funcs={"parse_exception_table"})
+        sp_b.gen_elem_hook = lambda spec, gen, tag: Sym("inst", "obj!")
+        got_b, ok_b = None, False
+        try:
+            inst_b = sp_b.call(Bc0, [Sym("x")], {"show_caches": sc} if sc else {}, None, {})
+            mark_ = len(sp_b.effects)
+            sp_b.run(Bc0.lookup("__iter__"), [inst_b])
+            ys = [e for k, e in flatten_effects(sp_b.effects[mark_:]) if k == "yield"]
+            if len(ys) == 1:
+                got_b = cache_filter(ys)
+                ok_b = got_b == [bool(sc), True] and show(ys[0].args[0]) == "inst"
+            else:
+                got_b = "%d yield sites" % len(ys)
+        except Exception as ex:
+            got_b = "not evaluable: %s" % ex
+        rep.ob("R7", "xdis.std._StdApi.__init__.Bytecode.__iter__", "cache-entries-hidden-by-default" if not sc else "cache-entries-shown-on-request", ok_b,
+               expected="iteration yields every decoded instruction%s" % (" except CACHE" if not sc else ""), derived=got_b,
+               msg="iterating dis.Bytecode(x) leaves out the inline CACHE entries of 3.11+ code unless show_caches=True")
     # ---------------------------------------------------------------- R6 the shared decoder and line-start machinery
     from ..report import SubReport, merge_sub
     from . import c05, dis_rules
@@ -330,15 +393,8 @@ def run(rep, tier):
         # C05-R7 is about the default of xdis.bytecode.Bytecode; xdis.std's own Bytecode class chooses the value itself (R8 below)
         merge_sub(rep, sub, "R6", "C05", only_rules=tuple(r for r in ("R1", "R2", "R3", "R4", "R5", "R6")))
     # ---------------------------------------------------------------- R8 xdis.std.Bytecode asks for dis's line semantics
-    dl = None
-    for c_ in ncls:
-        for n_ in ast.walk(c_):
-            if isinstance(n_, ast.Call) and ast.unparse(n_.func) == "_Bytecode.__init__":
-                dl = "default (True)"
-                for k_ in n_.keywords:
-                    if k_.arg == "dup_lines":
-                        dl = ast.unparse(k_.value)
-    rep.ob("R8", "xdis.std._StdApi.__init__.Bytecode.__init__", "dup_lines=False", dl == "False", expected="_Bytecode.__init__(..., dup_lines=False)", derived=dl,
-           msg="xdis.std.Bytecode builds its line starts with dup_lines=%s: instructions that begin a new lnotab entry on the same line get a starts_line that dis does not report" % dl)
+    dl = dl_seen[0] if dl_seen else "<findlinestarts not called>"
+    rep.ob("R8", "xdis.std._StdApi.__init__.Bytecode.__init__", "dup_lines=False", dl is False, expected="the line-start finder is asked for dup_lines=False", derived=show(dl),
+           msg="xdis.std.Bytecode builds its line starts with dup_lines=%s: instructions that begin a new lnotab entry on the same line get a starts_line that dis does not report" % show(dl))
     rep.assumptions = ["reference/codetype.json (dis._get_code_object of hosts 3.8-3.13)", "instruction fields, labels, line starts and stack effects are C02-C05, C15",
                        "equality of returned data with the host's dis is not evaluated; only the plumbing is decided"]
